@@ -207,10 +207,14 @@ func c15Alias(c *run.C) {
 	if r.P(1, 3) {
 		cache = gen.Pick(r, []int{1, 2, 8, 64})
 	}
-	entry := gen.Pick(r, []string{"Write", "ParseReader", "Decoder", "ParseString"})
+	entry := gen.Pick(r, []string{"Write", "ParseReader", "Decoder", "ParseString", "Mixed"})
 	if entry == "Write" && !hook.Enabled {
 		entry = "ParseReader"
 	}
+	// "Mixed": ONE Parser instance, first document through its ParseString
+	// method, the following ones through Parse / Write with buffers that are
+	// overwritten afterwards (a legal sequence of calls on one instance)
+	mixedCalls := 0
 	c.Begin(c15Case{cd.Name, t.String(), hexs(d1.Buf), hexs(d2.Buf), sizes, cache, entry, valueString(v1)})
 
 	t1 := reflect.New(t)
@@ -246,6 +250,26 @@ func c15Alias(c *run.C) {
 		case "Decoder":
 			d := cd.NewDecoder(&mon.ChunkReader{Data: doc, Sizes: sizes, EOFWithData: len(doc)%2 == 1}, gen.Pick(r, []int{1, 3, 16, 64, 4096}), u)
 			perr = d.Next()
+		case "Mixed":
+			mixedCalls++
+			switch {
+			case mixedCalls == 1:
+				perr = parser.ParseString(string(doc))
+			case mixedCalls%2 == 0 || !hook.Enabled:
+				cp := exactCopy(doc)
+				perr = parser.Parse(cp)
+				mon.Scribble(cp)
+			default:
+				for _, ch := range mon.Chunks(doc, sizes) {
+					if _, perr = parser.Write(ch); perr != nil {
+						return
+					}
+					mon.Scribble(ch)
+				}
+				if ferr, has := hook.Finalize(parser); has {
+					perr = ferr
+				}
+			}
 		default:
 			cp := append([]byte{}, doc...)
 			strInput = string(cp)
